@@ -1027,7 +1027,7 @@ Section Prefix.
   Inductive skippable : list (tok (T:=T)) -> nat -> Prop :=
   | sk_nil : skippable [] 0
   | sk_imp e v l n :
-      prefix "imp" (tsp e) = true -> float_lit (tsp v) = true ->
+      prefix "imp" (tsp e) = true -> num_lit (tsp v) = true ->
       skippable l n -> skippable (e :: v :: l) (Datatypes.S n)
   | sk_lat e v l n z :
       prefix "imp" (tsp e) = false -> contains_sub "fill" (tsp e) = false ->
